@@ -38,6 +38,8 @@ def register(gen, T):
         m_fin = normws(fn_body(msl, "finish"))
         m_exp = normws(fn_body(msl_lib, "export_to_msl"))
         simp = normws(fn_body(simplify, "simplify_cbuffers"))
+        ty_globals = normws(T.src("typer/src/typer/globals.rs"))
+        ty_pipes = normws(fn_body(T.src("typer/src/typer/pipelines.rs"), "parse_pipeline"))
 
         m = re.search(r'const\s+ARGUMENT_BUFFER_NAMES\s*:\s*&\[&str\]\s*=\s*&\[(.*?)\];', msl, re.S)
         if not m:
@@ -86,6 +88,19 @@ def register(gen, T):
                 "assert!(!self.flags.assigned_api_slots); self.flags.assigned_api_slots = true;")),
             ("assignReadsSelectedPipelinesDefault", lambda: re.search(
                 r'let default_set = match self\.selected_pipeline \{ Some\(index\) => self\.pipelines\[index\]\.default_bind_group_index, None => 0, \};', assign) is not None),
+            ("languageSlotIndexNeverRead", lambda: re.search(r'lang_(slot|binding)\s*\.\s*index', assign) is None
+                and len(re.findall(r'lang_slot', assign)) == 1 and len(re.findall(r'lang_binding', assign)) == 1),
+            # ---- front end: what an "explicit group" and "the pipeline's default group" are
+            ("typerRegisterSpaceIsTheGroup", lambda: len(re.findall(
+                r'let new_binding = ir::LanguageBinding \{ set: register\.space, index, \};', ty_globals)) == 2),
+            ("typerAttributeOverridesTheGroup", lambda: re.search(
+                r'if let Some\(binding_group\) = attribute_result\.binding_group_override \{ gv_ir\.lang_slot\.set = Some\(binding_group\); \}', ty_globals) is not None
+                and re.search(r'if let Some\(binding_group\) = attribute_result\.binding_group_override \{ cb_ir\.lang_binding\.set = Some\(binding_group\); \}', ty_globals) is not None
+                and ty_globals.find("gv_ir.lang_slot = new_binding;") < ty_globals.find("gv_ir.lang_slot.set = Some(binding_group);")
+                and ty_globals.find("cb_ir.lang_binding = new_binding;") < ty_globals.find("cb_ir.lang_binding.set = Some(binding_group);")),
+            ("typerDefaultBindGroupProperty", lambda: re.search(r'default_bind_group_index: 0,', ty_pipes) is not None
+                and re.search(r'"DefaultBindGroup" => \{ let value = extract_uint32\(&property\.value, context\)\?; pipeline\.default_bind_group_index = value; \}', ty_pipes) is not None
+                and len(re.findall(r'default_bind_group_index', ty_pipes)) == 2),
             # ---- HLSL exporter: metadata entries in root-definition order, grouped by set
             ("hlslAnalysesRootDefinitionsInOrder", lambda: re.search(
                 r'for decl in &module\.root_definitions \{ analyse_bindings\(decl, &mut context\)\?; \}', h_gen) is not None
